@@ -138,7 +138,17 @@ class World:
                          tr.TensorDict: "T"}
 
     def kset(self, mask):
-        return [self.keys[i] for i in range(3) if mask >> i & 1]
+        """The key collection handed to a constructor (`Iterable[Tensor]`): a list, a tuple, a dict view or a ONE-SHOT iterator, in turn."""
+        ks = [self.keys[i] for i in range(3) if mask >> i & 1]
+        self._kc = getattr(self, "_kc", 0) + 1
+        kind = self._kc % 4
+        if kind == 1:
+            return tuple(ks)
+        if kind == 2:
+            return iter(ks)
+        if kind == 3:
+            return dict.fromkeys(ks).keys()
+        return ks
 
     def mask(self, keyset):
         m = 0
